@@ -310,3 +310,14 @@ def parse_ty(s, recs=None):
     if recs and s in recs:
         return recs[s]
     return TObj(s)
+
+
+class THeap(Ty):
+    """ghost heap field: the value of one mutable attribute for every object of an opaque class (array object -> value)"""
+
+    def __init__(self, cls, val):
+        self.cls, self.val = cls, val
+        self.name = f"Heap[{cls!r},{val!r}]"
+
+    def sort(self):
+        return z3.ArraySort(self.cls.sort(), self.val.sort())
